@@ -1,4 +1,5 @@
 import PycModel.Proofs.BuildDecl
+import PycModel.Proofs.Init
 /-!
 # Declarations, from tokens to `Decl` nodes
 
@@ -698,16 +699,18 @@ theorem td_eq : ∀ (d : D) (n : Nat), d.td n = tdRaw (dName d) (dTco n d)
 /-- one init-declarator: a declarator and an optional `= assignment-expression` -/
 structure IDc where
   d : D
-  init : Option X
+  init : Option Init.I
 
 def IDc.ntoks (it : IDc) : Nat := it.d.ntoks + (match it.init with | none => 0 | some e => 1 + e.ntoks)
 def IDc.flat (it : IDc) : List Tk :=
   it.d.flat ++ (match it.init with | none => [] | some e => ("EQUALS", "=") :: e.flat)
-def IDc.fuel (it : IDc) : Nat := it.d.fuel + it.d.ntoks + ofuel it.init + 8
+/-- fuel of the optional initializer -/
+def ifuel : Option Init.I → Nat | none => 0 | some i => i.fuel
+def IDc.fuel (it : IDc) : Nat := it.d.fuel + it.d.ntoks + ifuel it.init + 8
 
 structure WFI (it : IDc) : Prop where
   wfd : WFD it.d
-  wfx : ∀ e, it.init = some e → WFX 1 e
+  wfx : ∀ i, it.init = some i → Init.WFInit i
 
 /-- the `_DeclInfo` the parser builds for it (`n`: position of its first token) -/
 def IDc.di (n : Nat) (it : IDc) : DI :=
@@ -717,7 +720,7 @@ def IDc.di (n : Nat) (it : IDc) : DI :=
 theorem IDc.flat_length (it : IDc) : it.flat.length = it.ntoks := by
   cases hi : it.init with
   | none => simp [IDc.flat, IDc.ntoks, hi, DeclSkel.flat_length]
-  | some e => simp [IDc.flat, IDc.ntoks, hi, DeclSkel.flat_length, FullExpr.flat_length]; omega
+  | some e => simp [IDc.flat, IDc.ntoks, hi, DeclSkel.flat_length, Init.I.flat_length]; omega
 
 theorem stopA_comma : StopA "COMMA" := ⟨⟨⟨by decide, by decide⟩, by decide⟩, by decide⟩
 theorem stopA_semi : StopA "SEMI" := ⟨⟨⟨by decide, by decide⟩, by decide⟩, by decide⟩
@@ -743,7 +746,7 @@ theorem initDeclarator_ok (it : IDc) (hwf : WFI it) (s : PState) (stop : Tk) (re
     have hs0 : SeesT env s (it.d.flat ++ (k0, v0) :: rest) := by simpa [IDc.flat, hi] using hs
     obtain ⟨s1, h1, hs1, hi1⟩ := anyDeclarator_ok it.d hwf.wfd s _ hs0
       (by intro k v r h; simp only [List.cons.injEq, Prod.mk.injEq] at h
-          rcases hstop with h' | h' <;> simp only at h' <;> rw [← h.1.1, h'] <;> exact ⟨by decide, by decide⟩) G (by simp [ofuel, hi] at hF; omega)
+          rcases hstop with h' | h' <;> simp only at h' <;> rw [← h.1.1, h'] <;> exact ⟨by decide, by decide⟩) G (by simp [ifuel, hi] at hF; omega)
     obtain ⟨s2, h2, hs2, hi2⟩ := accept_other s1 _ "EQUALS" hs1 (by
       intro k v r h; simp only [List.cons.injEq, Prod.mk.injEq] at h
       rcases hstop with h' | h' <;> simp only at h' <;> rw [← h.1.1, h'] <;> decide)
@@ -761,28 +764,23 @@ theorem initDeclarator_ok (it : IDc) (hwf : WFI it) (s : PState) (stop : Tk) (re
       simpa [IDc.flat, hi, List.append_assoc] using hs
     obtain ⟨s1, h1, hs1, hi1⟩ := anyDeclarator_ok it.d hwf.wfd s _ hs0
       (by intro k v r h; simp only [List.cons.injEq, Prod.mk.injEq] at h; rw [← h.1.1]; exact ⟨by decide, by decide⟩) G
-      (by simp [ofuel, hi] at hF; omega)
+      (by simp [ifuel, hi] at hF; omega)
     obtain ⟨s2, h2, hs2, hi2, _⟩ := accept_same s1 "EQUALS" "=" _ hs1
-    -- the initializer is an assignment expression (its first token is not `{`)
-    obtain ⟨t, r, hfl, hth, _⟩ := flat_heads hwe
-    have hnb : t.1 ≠ "LBRACE" := by intro h; rw [h] at hth; revert hth; decide
-    have hs2' : SeesT env s2 ((t.1, t.2) :: (r ++ (k0, v0) :: rest)) := by simpa [hfl] using hs2
-    obtain ⟨s3, h3, hs3, hi3⟩ := accept_other s2 _ "LBRACE" hs2' (by
-      intro k v r' h; simp only [List.cons.injEq, Prod.mk.injEq] at h; rw [← h.1.1]; exact hnb)
-    have hs3' : SeesT env s3 (e.flat ++ (k0, v0) :: rest) := by simpa [hfl] using hs3
-    obtain ⟨G', rfl⟩ : ∃ G', G = G' + 1 := ⟨G - 1, by simp [ofuel, hi] at hF; have := FullExpr.fuel_ge e; omega⟩
-    obtain ⟨s4, h4, hs4, hi4⟩ := (all_ok e).a hwe s3 (k0, v0) rest hstop.stopA hs3' G' (by simp [ofuel, hi] at hF; omega)
+    -- the initializer: an assignment expression or a brace list
+    have hend : Init.EndsInit (k0, v0).1 := by
+      rcases hstop with h' | h'
+      · exact .inl h'
+      · exact .inr (.inl h')
+    obtain ⟨G', rfl⟩ : ∃ G', G = G' + 1 := ⟨G - 1, by simp [ifuel, hi] at hF; have := Init.I.fuel_ge e; omega⟩
+    obtain ⟨s4, h4, hs4, hi4⟩ := Init.init_ok e hwe s2 (k0, v0) rest hend hs2 (G' + 1) (by simp [ifuel, hi] at hF; omega)
     refine ⟨s4, ?_, hs4, by simp only [IDc.ntoks, hi]; omega⟩
     have hnn : (chainVal (it.d.chain s.idx) (it.d.td s.idx)).isNone = false := by
       have := DeclSkel.val_isNode it.d s.idx
       simp only [D.val] at this
       cases h : chainVal (it.d.chain s.idx) (it.d.td s.idx) <;> simp_all [Val.isNode, Val.isNone]
-    have e3 : s3.idx = s.idx + it.d.ntoks + 1 := by omega
-    rw [e3] at h4
-    have h4' : run G' .assignmentExpression s3 = .ok (e.val (s.idx + it.d.ntoks + 1)) s4 := by simpa using h4
-    have hinit : run (G' + 1) .initializer s2 = .ok (e.val (s.idx + it.d.ntoks + 1)) s4 := by
-      show pInitializer (run G') s2 = _
-      simp [pInitializer, DeclSkel.bnd, h3, h4']
+    have e2 : s2.idx = s.idx + it.d.ntoks + 1 := by omega
+    rw [e2] at h4
+    have hinit : run (G' + 1) .initializer s2 = .ok (e.val (s.idx + it.d.ntoks + 1)) s4 := h4
     show pInitDeclarator (run (G' + 1)) false s = _
     simp only [pInitDeclarator, DeclSkel.bnd, h1, hnn, Bool.false_eq_true, ↓reduceIte, DeclSkel.pur, h2, Option.isSome_some, hinit]
     simp [IDc.di, DI.info, DI.raw, hi, td_eq]
